@@ -12,6 +12,7 @@
 -/
 import Keto.Model.Typecheck
 import Keto.Proofs.OplLemmas
+import Keto.Proofs.OplStepLemmas
 
 namespace Keto
 open Keto.Opl
@@ -67,6 +68,24 @@ theorem C12_lex_linear (s : List UInt8) :
   have h := lex_ok s.toArray
   simpa using And.intro h.2.2.2 h.2.2.1
 
+/-- **C12, the parser is linear.** Every loop iteration of the parser consumes an item or is the
+    last one of its loop: at most `100·|items| + 90` steps (calls of `next`, loop iterations), hence
+    lexing and parsing together take at most `116·|s| + 200` steps. (The type check is not
+    included: see below.) -/
+theorem C12_parse_linear (s : List UInt8) :
+    (parse s).parseSteps ≤ 100 * (parse s).nItems + 90 ∧
+    (parse s).lexSteps + (parse s).parseSteps ≤ 116 * s.length + 200 := by
+  have hp := parseItems_steps (lex s.toArray).items
+  have hl := C12_lex_linear s
+  have h1 : (parse s).parseSteps = (parseItems (lex s.toArray).items).steps := by
+    unfold parse; simp only []; split <;> rfl
+  have h2 : (parse s).nItems = (lex s.toArray).items.length := by
+    unfold parse; simp only []; split <;> rfl
+  have h3 : (parse s).lexSteps = (lex s.toArray).steps := by
+    unfold parse; simp only []; split <;> rfl
+  rw [h1, h2, h3]
+  omega
+
 namespace C12ex
 
 /-- `class A implements Namespace {` newline ` #` : a stray byte on line 2. -/
@@ -90,6 +109,8 @@ open C12ex in
 example : (parse good).errors = [] ∧ (parse good).namespaces.length = 1 ∧ (parse good).panic = false := by decide +kernel
 open C12ex in
 example : (lex good.toArray).items.length = 38 ∧ 0 < (lex good.toArray).steps := by decide +kernel
+open C12ex in
+example : (parse good).nItems = 38 ∧ 38 ≤ (parse good).parseSteps := by decide +kernel
 
 /-! ### linear time fails in the type check (finding F-tc-exp)
 
